@@ -137,7 +137,7 @@ def run(ctx):
                                             json.dumps(f.describe())[:700]),
                           {"meta": m, "events": f.execution, "detail": f.describe()},
                           key=("key-print-parameters" if (nxt.get("e") == "Key" and _print_only(f.execution, nxt)) else None))
-    if not ctx.violations:
+    if not ctx.violations:        # (the plain classes were all accepted)
         cands = [executions[i] for i in plain if sum(1 for ev in executions[i] if ev.get("e") == "Key") >= 2]
         if cands:
             def dup_key(ex):
